@@ -11,7 +11,8 @@ SPEC = dict(
          "offsetRangeToLineRange/getLines (arguments beyond both file ends), utf8.RuneCount on random bytes, columnHelper.get "
          "sequences (monotone and not), breakMatchesOnNewlines, chunkCandidates, contentProvider.fillMatches/"
          "fillContentMatches/fillChunkMatches on a one-document shard with sorted, unsorted, overlapping, empty, multi-line and "
-         "file-name candidates, context 0..3; (b) end-to-end Search (27 substring/regexp/file-name queries, LineMatches and "
+         "file-name candidates, context 0..3 (fillContentMatches without newline splitting is checked against the multi-line "
+         "specification lm_ok_ml when its hypotheses hold); (b) end-to-end Search (27 substring/regexp/file-name queries, LineMatches and "
          "ChunkMatches, context 0..3) on 1-3 document shards. non-trivial = more than one newline / line / chunk / "
          "candidate involved (per-kind rule in the harness).",
     trusted_base=["correspondence harness harness/overlay/index/zz_verif_c03_test.go (generator, canonicalisation: matches "
